@@ -1,2 +1,4 @@
 import MiVerif.Gen.Prelude
 import MiVerif.Gen.Arith
+import MiVerif.Gen.Tables
+import MiVerif.Gen.Entry
